@@ -241,10 +241,134 @@ class Body:
         return self.bb_dominates(a.bb, b.bb)
 
     def edge_dominates(self, edge, target_bb):
-        """True iff every path from entry to target_bb uses CFG edge `edge`."""
+        """True iff every path from entry to target_bb uses CFG edge `edge`.  Paths are
+        followed flag-sensitively for the `matches!`-style idiom: a bool local that is only ever
+        assigned constants and then switched on (so `if matches!(x, A | B) {..}` is dominated by
+        the A/B edges of the inner discriminant switch)."""
         if target_bb not in self.live_blocks:
             return True
-        return target_bb not in self.reachable([0], removed_edges=[edge])
+        if target_bb not in self.reachable([0], removed_edges=[edge]):
+            return True
+        for f in self._flags_set_after(edge[1]):
+            if target_bb not in self._reachable_flag([0], [edge], f):
+                return True
+        return False
+
+    # -- bool flags assigned only constants -------------------------------------------------
+    def flag_locals(self):
+        if not hasattr(self, "_flagl"):
+            fl = {}
+            for l, defs in self.defs.items():
+                if l == 0 or l <= self.argc or not defs:
+                    continue
+                vals = []
+                for site, kind, node in defs:
+                    if kind != "assign" or node["lhs"][1] or node["rv"]["k"] != "use":
+                        vals = None
+                        break
+                    c = node["rv"]["op"].get("c")
+                    if c is None or "v" not in c or c.get("ty") != "bool":
+                        vals = None
+                        break
+                    vals.append((site.bb, int(c["v"])))
+                if vals and len(vals) >= 2:
+                    fl[l] = vals
+            self._flagl = fl
+        return self._flagl
+
+    def _flags_set_after(self, bb):
+        """Flags assigned a constant in bb or in the straight-line blocks following it."""
+        out = []
+        seen = set()
+        cur = bb
+        for _ in range(8):
+            if cur in seen:
+                break
+            seen.add(cur)
+            for l, vals in self.flag_locals().items():
+                if any(b == cur for b, v in vals) and l not in out:
+                    out.append(l)
+            ss = self.succ[cur]
+            if len(ss) != 1:
+                break
+            cur = ss[0]
+        return out
+
+    def _switch_on_flag(self, bb, flag):
+        """If bb ends in a switch on `flag` (directly or through a same-block copy): the
+        value->target map and the otherwise target."""
+        t = self.blocks[bb]["term"]
+        if t["k"] != "switch":
+            return None
+        l = op_local(t["op"])
+        if l is None:
+            return None
+        if l != flag:
+            defs = self.defs.get(l, [])
+            if len(defs) != 1 or defs[0][1] != "assign" or defs[0][2]["rv"]["k"] != "use" or op_local(defs[0][2]["rv"]["op"]) != flag:
+                return None
+        return {int(v): tb for v, tb in t["targets"]}, t["otherwise"]
+
+    def reachable_fs(self, starts, removed_nodes=(), removed_edges=(), flags_from=None):
+        """Flag-sensitive forward reachability: intersection over the candidate flags (each flag is
+        tracked separately; a block is reachable only if it is reachable under every tracking)."""
+        base = self.reachable(starts, removed_nodes=removed_nodes, removed_edges=removed_edges)
+        cands = []
+        for b in (flags_from if flags_from is not None else starts):
+            for f in self._flags_set_after(b):
+                if f not in cands:
+                    cands.append(f)
+        for f in cands:
+            base &= self._reachable_flag(starts, removed_edges, f, removed_nodes)
+        return base
+
+    def unreachable_without(self, edges, bb):
+        """True iff bb cannot be reached from entry once all `edges` are removed (flag-sensitive)."""
+        if bb not in self.reachable([0], removed_edges=edges):
+            return True
+        flags = []
+        for e in edges:
+            for f in self._flags_set_after(e[1]):
+                if f not in flags:
+                    flags.append(f)
+        for f in flags:
+            if bb not in self._reachable_flag([0], edges, f):
+                return True
+        return False
+
+    def _reachable_flag(self, starts, removed_edges, flag, removed_nodes=()):
+        removed_edges = set(removed_edges)
+        removed_nodes = set(removed_nodes)
+        assigns = {}
+        for b, v in self.flag_locals()[flag]:
+            assigns[b] = v
+        seen = set()
+        work = [(s, None) for s in starts]
+        blocks = set()
+        while work:
+            n, v = work.pop()
+            if (n, v) in seen:
+                continue
+            seen.add((n, v))
+            blocks.add(n)
+            sw = self._switch_on_flag(n, flag)
+            if n in assigns:
+                v2 = assigns[n]
+            else:
+                v2 = v
+            if sw is not None and v is not None:
+                # the switch reads the flag before this block could reassign it (assignments are statements,
+                # the switch is the terminator): use the value after the block's statements
+                vv = v2
+                tm, other = sw
+                succs = [tm.get(vv, other)]
+            else:
+                succs = self.succ[n]
+            for s2 in succs:
+                if (n, s2) in removed_edges or s2 in removed_nodes:
+                    continue
+                work.append((s2, v2))
+        return blocks
 
     def returns(self):
         return [i for i in self.live_blocks if self.blocks[i]["term"]["k"] == "ret"]
@@ -430,6 +554,7 @@ class Program:
         self.sigs = {}
         self.crates = set()
         self.stolen = []
+        self.promoted = {}
         files = []
         for d in fact_dirs:
             files.extend(sorted(glob.glob(os.path.join(d, "*.jsonl"))))
@@ -457,6 +582,8 @@ class Program:
                 self.crates.add(r["name"])
             elif k == "stolen":
                 self.stolen.append(r)
+            elif k == "promoted":
+                self.promoted[(r["owner"], int(r["index"]))] = r
         raw = self.bodies
         self.bodies = {}
         # two passes so that closure names can look up their parents
@@ -521,6 +648,18 @@ class Program:
         out = []
         for b in self.bodies.values():
             out.extend(b.calls_to(pattern))
+        return out
+
+    def promoted_aggs(self, owner_key, index):
+        """Names `Adt::Variant` of the aggregates a promoted constant of a body is built from."""
+        r = self.promoted.get((owner_key, index))
+        out = set()
+        if r is None:
+            return out
+        for blk in r["blocks"]:
+            for st in blk["stmts"]:
+                if st["k"] == "assign" and st["rv"]["k"] == "agg" and st["rv"].get("ak") == "adt":
+                    out.add("%s::%s" % (st["rv"]["adt"].split("::")[-1], st["rv"]["vname"]))
         return out
 
     def cha(self, trait_path, method):
